@@ -1,0 +1,11 @@
+//go:build verif
+
+package notification
+
+import mqtt "github.com/eclipse/paho.mqtt.golang"
+
+// NewNotifierWithClient builds a Notifier over the given MQTT client.
+// Verification hook: compiled only with -tags verif.
+func NewNotifierWithClient(client mqtt.Client) *Notifier {
+	return &Notifier{mqttClient: client}
+}
